@@ -32,6 +32,9 @@ def variants_for(inst, rng):
          ('split_records', {'split_records': 1 + rng.randint(0, 3)}),
          ('split_records_shuffled', {'split_records': 1 + rng.randint(0, 3), 'shuffle': 1 + rng.randint(0, 10 ** 6)}),
          ('eligibility_indexed_by_geo', {'elig_geo_as_index': True}),
+         ('date_by_date_varying_geo_order', {'date_major': True, 'shuffle': 1 + rng.randint(0, 10 ** 6)}),
+         ('scaled_tiny', {'scale': 2.0 ** -rng.choice([10, 14, 16])}),
+         ('scaled_huge', {'scale': 2.0 ** rng.choice([10, 14])}),
          ('scaled_shifted_shuffled', {'scale': rng.choice([0.5, 4.0, 16.0]), 'date_shift': 17, 'shuffle': 99})]
   if inst['ids_kind'] != 'int':
     # string IDs that look like integers in another order
